@@ -327,3 +327,77 @@ def _bpm_ops(scn):
         r["exc"] = exc_name(e)
     out.append(r)
     return out
+
+
+# ---- tempo lists given in OFFSET form whose changes sit slightly off the previous segment's grid ------------------
+def anchored_scenarios(n):
+    """changes on measure lines (nominal positions), each anchored at its own time = the time the previous segment
+    gives +- up to 1 ms (well inside half a snap slot): the change's own offset is the ground truth for everything
+    after it.  Built through TimingMap.from_bpm_changes_offset or through BpmList.to_timing_map; tempo values may repeat."""
+    r = rng("c10-anchored")
+    out = []
+    G = 4
+    for i in range(n):
+        k = r.randint(2, 4)
+        met = r.choice([3, 4, 4, 5])
+        bls = [r.choice([500000, 400000, 600000, 300000]) for _ in range(k)]
+        if i % 3 == 0:
+            bls[1] = bls[0]                       # a change that repeats the tempo before it (re-anchoring only)
+        tl, anchors, m = [], [], 0
+        t = r.choice([0, -250000, 1250000])
+        for j in range(k):
+            if j:
+                dm = r.randint(1, 3)
+                t = anchors[-1] + dm * met * bls[j - 1] + r.choice([-1000, 1000, 2000 if bls[j - 1] >= 500000 else 1000, 0])
+                m += dm
+            tl.append({"m": m, "b": 0, "bl": bls[j], "met": met})
+            anchors.append(t)
+        qs, ts = [], []
+        for j in range(k):
+            span = (tl[j + 1]["m"] - tl[j]["m"]) * met * G if j + 1 < k else 3 * met * G
+            for d in sorted({0, 1, r.randrange(span), span - 1}):
+                if d < span:
+                    mm, bb = divmod(d, met * G)
+                    qs.append([tl[j]["m"] + mm, bb])
+                    ts.append(anchors[j] + d * (bls[j] // G))
+        order = list(range(len(qs)))
+        r.shuffle(order)
+        out.append({"kind": "anchored", "id": f"an{i}", "G": G, "tl": tl, "anchors": anchors, "t0": anchors[0],
+                    "via": "bpmlist" if i % 2 else "offset", "qs": [qs[x] for x in order], "ts": [ts[x] for x in order]})
+    return out
+
+
+def exec_anchored(scn):
+    from reamber.algorithms.timing.TimingMap import TimingMap
+    from reamber.algorithms.timing.utils.BpmChangeOffset import BpmChangeOffset
+    from reamber.algorithms.timing.utils.snap import Snap
+    from reamber.algorithms.timing.utils.Snapper import Snapper
+    G, tl = scn["G"], scn["tl"]
+    base = {"cls": f"anchored.{scn['via']}", "G": G, "tl": tl, "anchors": scn["anchors"], "t0": scn["t0"], "exc": ""}
+
+    def mk():
+        if scn["via"] == "bpmlist":
+            from reamber.base.Bpm import Bpm
+            from reamber.base.lists.BpmList import BpmList
+            return BpmList([Bpm(offset=ms(a), bpm=_bpm(c["bl"]), metronome=c["met"]) for c, a in zip(tl, scn["anchors"])]).to_timing_map()
+        return TimingMap.from_bpm_changes_offset([BpmChangeOffset(_bpm(c["bl"]), c["met"], ms(a)) for c, a in zip(tl, scn["anchors"])])
+    recs = []
+    r = dict(base, id=scn["id"] + "/offsets", op="offsets_anch", qs=[{"m": m, "b": b} for m, b in scn["qs"]], out=[])
+    try:
+        tm = mk()
+        r["out"] = [ticks(x) for x in tm.offsets([Snap(m, Fraction(b, G), tl[0]["met"]) for m, b in scn["qs"]])]
+    except Exception as e:
+        r["exc"] = exc_name(e)
+    recs.append(r)
+    r = dict(base, id=scn["id"] + "/snaps", op="snaps_anch", ts=scn["ts"], out=[], back=[])
+    try:
+        tm = mk()
+        sn = tm.snaps([ms(t) for t in scn["ts"]], Snapper())
+        for s_ in sn:
+            f = Fraction(s_.beat)
+            r["out"].append({"m": int(s_.measure), "bn": f.numerator, "bd": f.denominator})
+        r["back"] = [ticks(x) for x in tm.offsets(list(sn))]
+    except Exception as e:
+        r["out"], r["back"], r["exc"] = [], [], exc_name(e)
+    recs.append(r)
+    return recs
